@@ -25,7 +25,11 @@ class XRefNode(ConfigScalar(str)):
     def on_evaluate_impl(self, path, ctx):
         chain = [NodePath.get_str_path(path)]
         curr = self
+        visited = set() # ids of the reference nodes seen so far (all of them are kept alive by the config tree)
         while isinstance(curr, XRefNode):
+            if id(curr) in visited:
+                raise ValueError(f'Circular reference detected while following a chain of references: {chain}')
+            visited.add(id(curr))
             try:
                 ref = ctx.get_node(curr)
             except KeyError:
